@@ -281,7 +281,9 @@ theorem cons_resumeGate (w : World c) (h : Cons w) : ∀ r, resumeGate w = some 
   repeat' split at hr
   all_goals first | (injection hr with hr; subst hr; exact h) | cases hr
 theorem cons_parkOrFail (w : World c) (h : Cons w) : Cons (parkOrFail w).1 := by
-  simp only [parkOrFail]; split <;> exact h
+  simp only [parkOrFail]
+  repeat' split
+  all_goals exact h
 theorem cons_parkedRead (n : Option Nat) (w : World c) (h : Cons w) : Cons (parkedRead w n).1 := by
   simp only [parkedRead]
   split
